@@ -240,12 +240,12 @@ impl World {
                 let ops: Vec<SwapOperation> = st["route"].as_array().unwrap().iter().map(|h| SwapOperation::HaloSwap { offer_asset_info: self.asset_info(&h[0]), ask_asset_info: self.asset_info(&h[1]) }).collect();
                 let amount = u(&st["amount"]);
                 if op == "router_simulate" {
-                    let r: haloswap::router::SimulateSwapOperationsResponse = self.app.wrap().query_wasm_smart(self.router.clone(), &RouterQueryMsg::SimulateSwapOperations { offer_amount: amount, operations: ops }).map_err(|e| e.to_string())?;
-                    return Ok(json!({"amount": r.amount.to_string()}));
+                    let r: haloswap::router::SimulateSwapOperationsResponse = self.app.wrap().query_wasm_smart(self.router.clone(), &RouterQueryMsg::SimulateSwapOperations { offer_amount: amount, operations: ops.clone() }).map_err(|e| e.to_string())?;
+                    return Ok(json!({"amount": r.amount.to_string(), "composed": self.compose_quotes(&ops, amount, false)}));
                 }
                 if op == "router_reverse_simulate" {
-                    let r: haloswap::router::SimulateSwapOperationsResponse = self.app.wrap().query_wasm_smart(self.router.clone(), &RouterQueryMsg::ReverseSimulateSwapOperations { ask_amount: amount, operations: ops }).map_err(|e| e.to_string())?;
-                    return Ok(json!({"amount": r.amount.to_string()}));
+                    let r: haloswap::router::SimulateSwapOperationsResponse = self.app.wrap().query_wasm_smart(self.router.clone(), &RouterQueryMsg::ReverseSimulateSwapOperations { ask_amount: amount, operations: ops.clone() }).map_err(|e| e.to_string())?;
+                    return Ok(json!({"amount": r.amount.to_string(), "composed": self.compose_quotes(&ops, amount, true)}));
                 }
                 let min = if st["minimum_receive"].is_null() { None } else { Some(u(&st["minimum_receive"])) };
                 let to = opt_s(&st["to"]);
@@ -314,6 +314,26 @@ impl World {
             }
             _ => Err(format!("unknown op {}", op)),
         }
+    }
+
+    // C12: the hop-by-hop composition of the PAIR queries for a route (forward: first hop to last; reverse: last hop to first),
+    // each pair looked up through the factory exactly as a client would; Null when a lookup or a pair query fails
+    fn compose_quotes(&self, ops: &[SwapOperation], amount: Uint128, reverse: bool) -> Value {
+        let mut amt = amount;
+        let idx: Vec<usize> = if reverse { (0..ops.len()).rev().collect() } else { (0..ops.len()).collect() };
+        for i in idx {
+            let SwapOperation::HaloSwap { offer_asset_info, ask_asset_info } = ops[i].clone();
+            let pi: Result<PairInfo, _> = self.app.wrap().query_wasm_smart(self.factory.clone(), &FactoryQueryMsg::Pair { asset_infos: [offer_asset_info.clone(), ask_asset_info.clone()] });
+            let pi = match pi { Ok(p) => p, Err(_) => return Value::Null };
+            if reverse {
+                let r: Result<haloswap::pair::ReverseSimulationResponse, _> = self.app.wrap().query_wasm_smart(pi.contract_addr.clone(), &PairQueryMsg::ReverseSimulation { ask_asset: Asset { info: ask_asset_info, amount: amt } });
+                match r { Ok(x) => amt = x.offer_amount, Err(_) => return Value::Null }
+            } else {
+                let r: Result<haloswap::pair::SimulationResponse, _> = self.app.wrap().query_wasm_smart(pi.contract_addr.clone(), &PairQueryMsg::Simulation { offer_asset: Asset { info: offer_asset_info, amount: amt } });
+                match r { Ok(x) => amt = x.return_amount, Err(_) => return Value::Null }
+            }
+        }
+        json!(amt.to_string())
     }
 
     // replace "$pair0" / "$router" / "$factory" / "$tok:A" / "$lp0" placeholders inside raw JSON messages
